@@ -1,7 +1,7 @@
 /-
 C01 / C02 (WP close, step 5): THE GRAND COROLLARIES — the entry points `pi(int128_t)`, `pi_gourdon_64`, `pi_deleglise_rivat_64` over
-`W : Pc.Close.World` (PcProofs/CloseWorld.lean), in which EVERY object is the model of the real constructor / object:
-primes by the C18 model of the bundled primesieve (`genTo`), generate_primes / PiTable / FactorTable / FactorTableD / phi_vector by the
+`W : Pc.Close.World` (PcProofs/CloseWorld.lean), in which EVERY object is the model of the real constructor / object
+(`W.tablesS c f wide`): primes by the C18 model of the bundled primesieve (`genTo`), generate_primes / PiTable / FactorTable / FactorTableD / phi_vector by the
 C17 constructor models (`realNT`, `realHardEnv`, `realDEnv`), `primesieve::iterator` by WP iter's model over the same sieving core
 (`It.realIter (It.coreEnvTo …)`), `phi(x, a)` by the L2 model of phi.cpp over the real PhiTiny tables / PiTable constructor / `pix_upper`
 table (`phiReal`, `realTop`), every term of Gourdon / Deleglise-Rivat by the model of its real control flow, the parameters in checked
@@ -19,14 +19,14 @@ REMAINING HYPOTHESES (each explicit in the statements; dependency diagram in not
                  model: `W.N` is arbitrary); primesieve configuration `16 ≤ kib ≤ 8192`; iterator stop hints are `uint64_t` values.
  (T) NOT CLOSED  (listed, justified in the notes) `PhiRunOK.cache` — contents of the PhiCache sieve arrays (`init_cache` not modelled; free when the
                  constructor disables the cache: `cacheOK_of_geometry`); `W.OK.phiVec` — `PhiCache::phi<-1>` inside `phi_vector` (= C07's conclusion,
-                 `phiNegSpec_of_phiRecAlg`); `T.S` is the REFERENCE sieve over the constructor-built primes (the bit-exact `class Sieve` meets
-                 `SieveSpec` for segments with `seg/30*8 < 2^32`, `TablesOK.sieve` asks every segment); Gourdon for `2 ≤ x < 2401` (`get_k(x) < 4`).
+                 `phiNegSpec_of_phiRecAlg`); Gourdon for `2 ≤ x < 2401` (`get_k(x) < 4`).
+`T.S` is C17's BIT-EXACT model of `class Sieve` (`concreteSieve c f`, any CPU configuration) on every segment whose byte count fits the class's
+`uint32_t` fields (`seg / 30 * 8 < 2^32`), the reference semantics beyond (`sumSieve`, `world_sieve_is_bit_exact`); needs `B < 2^32` (S) — every int64 `x`, and int128 `x` with `y < 2^32`; beyond: `pi_api_eq_pi_refsieve`.
 The prime vectors are NOT hypotheses: `generate_primes<T>(max)` / `generate_n_primes<int32_t>(a)` (StorePrimes.hpp over the iterator over the same
 sieving core) return exactly the lists the tables / phi.cpp read (`world_generate_primes`).
 Only property theorems, non-vacuity examples and the axiom audit live here.
 -/
-import PcProofs.CloseWorldEx
-import PcProofs.CloseWorld2
+import PcProofs.CloseWorld3Ex
 
 namespace Pc.C01Closed
 open Pc.Top Pc.Close Nat PcGen.ApiConst
@@ -36,10 +36,19 @@ open scoped Nat.Prime
     `hardFactor`, `dEnv`, `dFactor`) hold for the objects built by the constructor models, for both entry widths; the iterator is patched above
     the last 64-bit prime `2^64 - 59`, where the unbounded contract is FALSE of the real iterator and no composed function asks
     (`piGourdon_withIt`, `piDeleglieRivat_withIt`) -/
-theorem world_tables_ok (W : World) {B : ℕ} (h : W.OK B) (wide : Bool) :
-    TablesOK ((W.tables wide).withIt (P2L.patch (W.tables wide).it It.maxPrime64)) B ∧
-      P2L.IterSpecTo (W.tables wide).it It.maxPrime64 :=
-  ⟨W.tables_ok h wide, W.it_specTo h⟩
+theorem world_tables_ok (W : World) {B : ℕ} (h : W.OK B) (hB : B < 2 ^ 32) (c : Sieve.Cfg) (f : Sieve.StopFn) (wide : Bool) :
+    TablesOK ((W.tablesS c f wide).withIt (P2L.patch (W.tablesS c f wide).it It.maxPrime64)) B ∧
+      P2L.IterSpecTo (W.tablesS c f wide).it It.maxPrime64 :=
+  ⟨W.tablesS_ok h hB c f wide, W.it_specTo h⟩
+
+/-- the sieve object of the world IS the bit-exact `class Sieve` (C17 `concreteSieve`, CPU configuration `c`, inline count body `f`) over the
+    constructor-built prime array on every segment the class's `uint32_t` byte counters can represent: `create` returns its state, and every later
+    operation of `sumSieve` stays in that summand -/
+theorem world_sieve_is_bit_exact (W : World) (c : Sieve.Cfg) (f : Sieve.StopFn) (wide : Bool) (low seg w : ℕ)
+    (hfit : seg / 30 * 8 < 2 ^ 32) :
+    (W.tablesS c f wide).S.create low seg w =
+      .inl ((Hard.concreteSieve c f (realNT W.gen W.tthreads W.N).primes).create low seg w) :=
+  Hard.sumSieve_create_fits _ _ low seg w hfit
 
 /-- **the prime vectors**: (1) what `generate_primes<T>(max)` (generate_primes.cpp → `store_primes` of StorePrimes.hpp: two loops over
     `primesieve::iterator`, the last 64-bit prime appended by hand) returns over the iterator model over the world's sieving core IS the list
@@ -51,19 +60,64 @@ theorem world_generate_primes (W : World) {B : ℕ} (h : W.OK B) :
 
 /-- **the nested calls return π**: any `pi` that is consistent with being computed by the dispatcher over the world is π at every int64
     argument below `x` -/
-theorem nested_calls_are_pi (W : World) {B : ℕ} (h : W.OK B) (pi : ℕ → ℕ) (x : ℤ)
+theorem nested_calls_are_pi (W : World) {B : ℕ} (h : W.OK B) (hB : B < 2 ^ 32) (c : Sieve.Cfg) (f : Sieve.StopFn) (pi : ℕ → ℕ) (x : ℤ)
     (hphi : ∀ n : ℕ, (n : ℤ) < x → maxCached < n → n ≤ meisselMax → W.PhiRunOK n)
-    (hrec : W.Nested B pi x) :
+    (hrec : W.NestedS c f B pi x) :
     ∀ n : ℕ, (n : ℤ) < x → n < 2 ^ 63 → pi n = π n :=
-  nested_pi_eq_world (W.tables false) (W.tables_ok h false) (W.it_specTo h) World.maxPrime64_ge W.P W.order W.sched pi x
-    (fun n hn _ => W.phiExec h n (hphi n hn)) hrec
+  W.nested_s h hB c f pi x hphi hrec
 
 /-- **`pi_api_eq_pi`** — `pi(int128_t x)` (api.cpp) for EVERY int128 `x`: negative → 0; `x ≤ INT64_MAX` → cache / `pi_legendre` / `pi_meissel` /
     `pi_gourdon_64`; above → `pi_gourdon_128`.  The tables are those of the route that is taken (`W.tables (x > INT64_MAX)`: `uint32_t` factor-table
     entries only inside `pi_gourdon_128`, D.cpp:311); the nested `pi_noprint` calls are 64-bit (`W.Nested` is over `W.tables false`).
     Hypotheses: (F) `h.float`, `GourdonEnv` in `hex`; (O) `hex`, `hrec`, `PhiRunOK.order`; (L) `PhiRunOK.lit`; (S) `h.size`, reach fields of `hex`;
     (T) `PhiRunOK.cache`, `h.phiVec`.  Result: π(x), or `badRun` for a recorded D history that is not a run. -/
-theorem pi_api_eq_pi (W : World) {B : ℕ} (h : W.OK B) (pi : ℕ → ℕ) (x : ℤ) (hx : x < 2 ^ 127) (threads : ℤ) (isPrint : Bool)
+theorem pi_api_eq_pi (W : World) {B : ℕ} (h : W.OK B) (hB : B < 2 ^ 32) (c : Sieve.Cfg) (f : Sieve.StopFn) (pi : ℕ → ℕ) (x : ℤ)
+    (hx : x < 2 ^ 127) (threads : ℤ) (isPrint : Bool) (r : ApiRun)
+    (hphi : ∀ n : ℕ, (n : ℤ) ≤ x → maxCached < n → n ≤ meisselMax → W.PhiRunOK n)
+    (hrec : W.NestedS c f B pi x)
+    (hex : (maxCached : ℤ) < x →
+      ApiExecC (W.tablesS c f (decide ((PiApi.int64Max : ℤ) < x))) B (decide ((PiApi.int64Max : ℤ) < x)) x.toNat r) :
+    piApi128 (W.tablesS c f (decide ((PiApi.int64Max : ℤ) < x))) W.phi pi x threads isPrint r = .ok (π x.toNat : ℤ) ∨
+      piApi128 (W.tablesS c f (decide ((PiApi.int64Max : ℤ) < x))) W.phi pi x threads isPrint r = .error (.hard .badRun) :=
+  W.pi_api_s h hB c f pi x hx threads isPrint r hphi hrec hex
+
+/-- **`pi_gourdon_eq_pi`** — `pi_gourdon_64(x)` (`wide = false`) / `pi_gourdon_128(x)` (`wide = true`, `x` accepted by the range check) over the
+    tables of its own instantiation, `x < 2` or `x ≥ 2401` -/
+theorem pi_gourdon_eq_pi (W : World) {B : ℕ} (h : W.OK B) (hB : B < 2 ^ 32) (c : Sieve.Cfg) (f : Sieve.StopFn) (pi : ℕ → ℕ)
+    (wide : Bool) (x : ℤ) (hx : InType wide x) (hsmall : x < 2 ∨ 2401 ≤ x) (threads : ℤ) (isPrint : Bool) (r : GRun)
+    (hphi : ∀ n : ℕ, (n : ℤ) < x → maxCached < n → n ≤ meisselMax → W.PhiRunOK n)
+    (hrec : W.NestedS c f B pi x)
+    (hex : 2 ≤ x → GExecC (W.tablesS c f wide) B wide x.toNat r) :
+    piGourdon (W.tablesS c f wide) pi wide x threads isPrint r = .ok (π x.toNat : ℤ) ∨
+      piGourdon (W.tablesS c f wide) pi wide x threads isPrint r = .error (.hard .badRun) :=
+  W.pi_gourdon_s h hB c f pi wide x hx hsmall threads isPrint r hphi hrec hex
+
+/-- **`pi_gourdon_64_eq_pi`** — `pi_gourdon_64(x)` for every int64 `x` with `x < 2` or `x ≥ 2401`: `Sigma`, `Phi0`, `AC` (A, C1, C2 over the
+    segments), `B` (over the real iterator), `D` each by its real control flow; `ac - b + d + phi0 + sigma = π(x)`. -/
+theorem pi_gourdon_64_eq_pi (W : World) {B : ℕ} (h : W.OK B) (hB : B < 2 ^ 32) (c : Sieve.Cfg) (f : Sieve.StopFn) (pi : ℕ → ℕ) (x : ℤ)
+    (hx : x < 2 ^ 63) (hsmall : x < 2 ∨ 2401 ≤ x) (threads : ℤ) (isPrint : Bool) (r : GRun)
+    (hphi : ∀ n : ℕ, (n : ℤ) < x → maxCached < n → n ≤ meisselMax → W.PhiRunOK n)
+    (hrec : W.NestedS c f B pi x)
+    (hex : 2 ≤ x → GExecC (W.tablesS c f false) B false x.toNat r) :
+    piGourdon (W.tablesS c f false) pi false x threads isPrint r = .ok (π x.toNat : ℤ) ∨
+      piGourdon (W.tablesS c f false) pi false x threads isPrint r = .error (.hard .badRun) :=
+  W.pi_gourdon_s h hB c f pi false x (by unfold InType; simpa using hx) hsmall threads isPrint r hphi hrec hex
+
+/-- **`pi_deleglise_rivat_64_eq_pi`** — `pi_deleglise_rivat_64(x)` for EVERY int64 `x`: `P2` (over the real iterator), `S1`, `S2_trivial`,
+    `S2_easy`, `S2_hard` each by its real control flow, `pi_y = pi_noprint(y)` by the dispatcher; `s1 + s2 + pi_y - 1 - p2 = π(x)`. -/
+theorem pi_deleglise_rivat_64_eq_pi (W : World) {B : ℕ} (h : W.OK B) (hB : B < 2 ^ 32) (c : Sieve.Cfg) (f : Sieve.StopFn)
+    (pi : ℕ → ℕ) (x : ℤ) (hx : x < 2 ^ 63) (threads : ℤ) (isPrint : Bool) (r : DrRun)
+    (hphi : ∀ n : ℕ, (n : ℤ) < x → maxCached < n → n ≤ meisselMax → W.PhiRunOK n)
+    (hrec : W.NestedS c f B pi x)
+    (hex : 2 ≤ x → DrExec (W.tablesS c f false) B false x.toNat r) :
+    piDeleglieRivat (W.tablesS c f false) pi false x threads isPrint r = .ok (π x.toNat : ℤ) ∨
+      piDeleglieRivat (W.tablesS c f false) pi false x threads isPrint r = .error (.hard .badRun) :=
+  W.pi_deleglise_rivat_64_s h hB c f pi x hx threads isPrint r hphi hrec hex
+
+/-- `pi_api_eq_pi` with the REFERENCE sieve (`W.tables`) and NO bound on `B`: for the 128-bit route with `y ≥ 2^32` (x beyond ≈ 8·10^28 under the default
+    tuning), where `TablesOK.sieve` of WP top asks the sieve contract for levels up to `π(y)` whose primes do not fit the `uint32_t` fields of `class Sieve`
+    (the real `D` only sieves with primes `≤ x⋆ < 2^32`; the bundle's field is over-general) -/
+theorem pi_api_eq_pi_refsieve (W : World) {B : ℕ} (h : W.OK B) (pi : ℕ → ℕ) (x : ℤ) (hx : x < 2 ^ 127) (threads : ℤ) (isPrint : Bool)
     (r : ApiRun)
     (hphi : ∀ n : ℕ, (n : ℤ) ≤ x → maxCached < n → n ≤ meisselMax → W.PhiRunOK n)
     (hrec : W.Nested B pi x)
@@ -72,39 +126,6 @@ theorem pi_api_eq_pi (W : World) {B : ℕ} (h : W.OK B) (pi : ℕ → ℕ) (x : 
     piApi128 (W.tables (decide ((PiApi.int64Max : ℤ) < x))) W.phi pi x threads isPrint r = .ok (π x.toNat : ℤ) ∨
       piApi128 (W.tables (decide ((PiApi.int64Max : ℤ) < x))) W.phi pi x threads isPrint r = .error (.hard .badRun) :=
   W.pi_api_w h pi x hx threads isPrint r hphi hrec hex
-
-/-- **`pi_gourdon_eq_pi`** — `pi_gourdon_64(x)` (`wide = false`) / `pi_gourdon_128(x)` (`wide = true`, `x` accepted by the range check) over the
-    tables of its own instantiation, `x < 2` or `x ≥ 2401` -/
-theorem pi_gourdon_eq_pi (W : World) {B : ℕ} (h : W.OK B) (pi : ℕ → ℕ) (wide : Bool) (x : ℤ) (hx : InType wide x)
-    (hsmall : x < 2 ∨ 2401 ≤ x) (threads : ℤ) (isPrint : Bool) (r : GRun)
-    (hphi : ∀ n : ℕ, (n : ℤ) < x → maxCached < n → n ≤ meisselMax → W.PhiRunOK n)
-    (hrec : W.Nested B pi x)
-    (hex : 2 ≤ x → GExecC (W.tables wide) B wide x.toNat r) :
-    piGourdon (W.tables wide) pi wide x threads isPrint r = .ok (π x.toNat : ℤ) ∨
-      piGourdon (W.tables wide) pi wide x threads isPrint r = .error (.hard .badRun) :=
-  W.pi_gourdon h pi wide x hx hsmall threads isPrint r hphi hrec hex
-
-/-- **`pi_gourdon_64_eq_pi`** — `pi_gourdon_64(x)` for every int64 `x` with `x < 2` or `x ≥ 2401`: `Sigma`, `Phi0`, `AC` (A, C1, C2 over the
-    segments), `B` (over the real iterator), `D` each by its real control flow; `ac - b + d + phi0 + sigma = π(x)`. -/
-theorem pi_gourdon_64_eq_pi (W : World) {B : ℕ} (h : W.OK B) (pi : ℕ → ℕ) (x : ℤ) (hx : x < 2 ^ 63) (hsmall : x < 2 ∨ 2401 ≤ x)
-    (threads : ℤ) (isPrint : Bool) (r : GRun)
-    (hphi : ∀ n : ℕ, (n : ℤ) < x → maxCached < n → n ≤ meisselMax → W.PhiRunOK n)
-    (hrec : W.Nested B pi x)
-    (hex : 2 ≤ x → GExecC (W.tables false) B false x.toNat r) :
-    piGourdon (W.tables false) pi false x threads isPrint r = .ok (π x.toNat : ℤ) ∨
-      piGourdon (W.tables false) pi false x threads isPrint r = .error (.hard .badRun) :=
-  W.pi_gourdon_64 h pi x hx hsmall threads isPrint r hphi hrec hex
-
-/-- **`pi_deleglise_rivat_64_eq_pi`** — `pi_deleglise_rivat_64(x)` for EVERY int64 `x`: `P2` (over the real iterator), `S1`, `S2_trivial`,
-    `S2_easy`, `S2_hard` each by its real control flow, `pi_y = pi_noprint(y)` by the dispatcher; `s1 + s2 + pi_y - 1 - p2 = π(x)`. -/
-theorem pi_deleglise_rivat_64_eq_pi (W : World) {B : ℕ} (h : W.OK B) (pi : ℕ → ℕ) (x : ℤ) (hx : x < 2 ^ 63)
-    (threads : ℤ) (isPrint : Bool) (r : DrRun)
-    (hphi : ∀ n : ℕ, (n : ℤ) < x → maxCached < n → n ≤ meisselMax → W.PhiRunOK n)
-    (hrec : W.Nested B pi x)
-    (hex : 2 ≤ x → DrExec (W.tables false) B false x.toNat r) :
-    piDeleglieRivat (W.tables false) pi false x threads isPrint r = .ok (π x.toNat : ℤ) ∨
-      piDeleglieRivat (W.tables false) pi false x threads isPrint r = .error (.hard .badRun) :=
-  W.pi_deleglise_rivat_64 h pi x hx threads isPrint r hphi hrec hex
 
 /-- `piApi_eq_pi` of PcProps/C01Top.lean with one hypothesis fewer (generic tables `T`, generic `phi`): no AC hook (`ApiExecC`), and
     `PhiContract` only at int64 arguments (above `INT64_MAX` the dispatcher calls `pi_gourdon_128` at once) -/
@@ -125,24 +146,28 @@ example : exWorld.OK 100 := exWorld_ok
 example (n : ℕ) : exWorld.PhiRunOK n := exWorld_phiRunOK n
 /-- (O) the nested-call hypothesis at `x = 10^5` with `pi := π`: every `pi_noprint(n)`, `n < 10^5`, of the dispatcher over the world returns `π n`
     (cache below 30719, `pi_legendre` with the L2 model of phi.cpp inside above) -/
-example : exWorld.Nested 100 Nat.primeCounting 100000 := exWorld_nested
+example (c : Sieve.Cfg) (f : Sieve.StopFn) : exWorld.NestedS c f 100 Nat.primeCounting 100000 := exWorld_nestedS c f
 /-- a complete execution of `pi_gourdon_64(100000)` (y = 47, z = 94, k = 7; real floats in `GourdonEnv`, static schedules, a recorded valid B run,
     AC segments `[240, 316)`, `[0, 240)`) over the world's tables -/
-example : GExecC (exWorld.tables false) 100 false 100000 (exGRun (exWorld.tables false).t) := exGExecC_world
+example (c : Sieve.Cfg) (f : Sieve.StopFn) :
+    GExecC (exWorld.tablesS c f false) 100 false 100000 (exGRun (exWorld.tablesS c f false).t) := exGExecC_worldS c f
 /-- … and of `pi_deleglise_rivat_64(100000)` (y = 46, c = 8) -/
-example : DrExec (exWorld.tables false) 100 false 100000 exDrRun := exDrExec_world
+example (c : Sieve.Cfg) (f : Sieve.StopFn) : DrExec (exWorld.tablesS c f false) 100 false 100000 exDrRun := exDrExec_worldS c f
 /-- the theorems applied to these instances: NO hypothesis is left open (the recorded LoadBalancerS2 histories are empty, for which the models
     answer `badRun`; a recorded complete history gives the first disjunct) -/
-example := pi_gourdon_64_eq_pi exWorld exWorld_ok Nat.primeCounting 100000 (by norm_num) (Or.inr (by norm_num)) 1 false
-  (exGRun (exWorld.tables false).t) (fun n _ _ _ => exWorld_phiRunOK n) exWorld_nested (fun _ => exGExecC_world)
-example := pi_deleglise_rivat_64_eq_pi exWorld exWorld_ok Nat.primeCounting 100000 (by norm_num) 1 false
-  exDrRun (fun n _ _ _ => exWorld_phiRunOK n) exWorld_nested (fun _ => exDrExec_world)
+example (c : Sieve.Cfg) (f : Sieve.StopFn) :=
+  pi_gourdon_64_eq_pi exWorld exWorld_ok (by norm_num) c f Nat.primeCounting 100000 (by norm_num) (Or.inr (by norm_num)) 1 false
+    (exGRun (exWorld.tablesS c f false).t) (fun n _ _ _ => exWorld_phiRunOK n) (exWorld_nestedS c f) (fun _ => exGExecC_worldS c f)
+example (c : Sieve.Cfg) (f : Sieve.StopFn) :=
+  pi_deleglise_rivat_64_eq_pi exWorld exWorld_ok (by norm_num) c f Nat.primeCounting 100000 (by norm_num) 1 false
+    exDrRun (fun n _ _ _ => exWorld_phiRunOK n) (exWorld_nestedS c f) (fun _ => exDrExec_worldS c f)
 /-- `pi(int128_t)` at a Legendre-route argument: the value is π(50000) (no `badRun` possible below 10^8) -/
-example : piApi128 (exWorld.tables false) exWorld.phi Nat.primeCounting 50000 1 false exApiRun = .ok (π 50000 : ℤ) := by
+example (c : Sieve.Cfg) (f : Sieve.StopFn) :
+    piApi128 (exWorld.tablesS c f false) exWorld.phi Nat.primeCounting 50000 1 false exApiRun = .ok (π 50000 : ℤ) := by
   have hd : decide ((PiApi.int64Max : ℤ) < 50000) = false := by decide
-  have h := pi_api_eq_pi exWorld exWorld_ok Nat.primeCounting 50000 (by norm_num) 1 false exApiRun
+  have h := pi_api_eq_pi exWorld exWorld_ok (by norm_num) c f Nat.primeCounting 50000 (by norm_num) 1 false exApiRun
     (fun n _ _ _ => exWorld_phiRunOK n)
-    (fun n hn h63 => exWorld_nested n (lt_trans hn (by norm_num)) h63)
+    (fun n hn h63 => exWorld_nestedS c f n (lt_trans hn (by norm_num)) h63)
     (fun _ => by rw [hd]; exact ⟨fun h _ => absurd h (by decide), fun h => absurd h (by decide)⟩)
   rw [hd] at h
   rcases h with h | h
@@ -158,10 +183,12 @@ example : piApi128 (exWorld.tables false) exWorld.phi Nat.primeCounting 50000 1 
 end Pc.C01Closed
 
 #print axioms Pc.C01Closed.world_tables_ok
+#print axioms Pc.C01Closed.world_sieve_is_bit_exact
 #print axioms Pc.C01Closed.world_generate_primes
 #print axioms Pc.C01Closed.nested_calls_are_pi
 #print axioms Pc.C01Closed.pi_api_eq_pi
 #print axioms Pc.C01Closed.pi_gourdon_eq_pi
 #print axioms Pc.C01Closed.pi_gourdon_64_eq_pi
 #print axioms Pc.C01Closed.pi_deleglise_rivat_64_eq_pi
+#print axioms Pc.C01Closed.pi_api_eq_pi_refsieve
 #print axioms Pc.C01Closed.pi_api_eq_pi_generic
